@@ -208,11 +208,14 @@ def gen_case(rng, bucket):
     elif op in ("repack", "prune"):
         c["threshold"] = rng.random() < 0.35
         c["refdeltas"] = rng.random() < 0.3
+    if rng.random() < (0.5 if op == "packrefs" else 0.1):
+        # a symbolic reference below refs/ (as `git clone` leaves refs/remotes/origin/HEAD): PackRefs keeps it loose
+        c["refs"] = c["refs"] + [{"name": "refs/remotes/origin/HEAD", "sym": "refs/heads/main"}]
     return c
 
 
 def effective_refs(c):
-    loose = {r["name"]: r["ref"] for r in c["refs"]}
+    loose = {r["name"]: r["ref"] for r in c["refs"] if "ref" in r}
     eff = dict((r["name"], r["ref"]) for r in c["packed"] if r["name"] not in loose)
     eff.update(loose)
     return eff
@@ -227,7 +230,7 @@ class Main(Suite):
     go_cmd = "c21"
     coq_imports = "From GoGit Require Import Model.Gc Model.Crash."
     quick_n = 90
-    thorough_n = 450
+    thorough_n = 320
     coq_chunk = 60
     impl_env = {"TMPDIR": "/dev/shm"} if os.path.isdir("/dev/shm") else None
 
@@ -261,7 +264,10 @@ class Main(Suite):
         h = c["head"]
         es.append("(PHead, Whole (DRef (%s)))" % ("RSym %s" % coq_str(h["sym"]) if "sym" in h else "RHash %d%%N" % h["ref"]))
         for r in c["refs"]:
-            es.append("(PRef %s, Whole (DRef (RHash %d%%N)))" % (coq_str(r["name"]), r["ref"]))
+            if "sym" in r:
+                es.append("(PRef %s, Whole (DRef (RSym %s)))" % (coq_str(r["name"]), coq_str(r["sym"])))
+            else:
+                es.append("(PRef %s, Whole (DRef (RHash %d%%N)))" % (coq_str(r["name"]), r["ref"]))
         if c["packed"]:
             es.append("(PPacked, Whole (DPackedRefs %s))" % coq_list(["(%s, %d%%N)" % (coq_str(r["name"]), r["ref"]) for r in c["packed"]]))
         elif c.get("packed_empty"):
